@@ -25,6 +25,10 @@ claim("C03", "SSA value provenance of the fields of the entry that reaches the k
       "Decides the mechanism clauses C03.1-C03.7 of the KV store (index funnel, no-op set writes nothing and compares the object it stores, create index inherited, lock counter and holder provenance, tombstone on delete, conditional verbs' boolean consumed, list/tree-delete use one prefix index). Equivalence with a sequential reference map over histories is not decided. One known finding (KF2).",
       "DESIGN.md section 3 C03")
 
+claim("C04", "call-chain funnel over resolved callers to an effect-defined invalidator (must-flow of the three session-indexed reads + downstream releasing writes); cascade must-flow with peer/critical edge refinement; edge-cut guards on lock acquire/release; who-may-call on the TTL code",
+      "Decides C04.1 (every way to remove a sessions row passes through a function that releases/deletes held keys and removes check links and session-bound queries), C04.2 (node delete, check delete, critical check each feed linked sessions to the invalidator on every successful local path), C04.3 (acquire only below session-exists and absent/unheld/same-holder edges; release only below holder==requester), C04.4 (TTL expiry goes through raftApply). Does not decide the reachable-state invariant over histories.",
+      "DESIGN.md section 3 C04")
+
 NA_REASON = {}
 
 checks = []
